@@ -523,7 +523,14 @@ def overflow_obligations(prog, rule, classes, methods=None, bounded=("theta",)):
                 continue
             bd = [a.arg for a in fn.args.args if a.arg in bounded]
             hits = [h for t in rets for h in lints.unsaturated_exp(t, bd, res)]
+            under = [h for t in rets for h in lints.log_of_vanishing_product(t, bd)]
             msg = ""
+            if under and not hits:
+                out.append(struct_ob(rule, qual(ci, fn), False,
+                                     f"`{U(under[0])[:120]}` takes the logarithm of a product with an exponential factor: the factor underflows to 0 "
+                                     f"for admissible inputs and the result is -inf where the log-density is finite (write the exponent itself)",
+                                     ci.module.relpath, fn.lineno, tier="F"))
+                continue
             if hits:
                 msg = (f"`{U(hits[0])[:120]}` can exceed the floating-point range for admissible inputs (its argument depends on the "
                        f"data and is not provably <= 0) and its value reaches the result as a plain factor or numerator, not through a "
